@@ -277,7 +277,7 @@ class C02(Sim):
                 # per-variable arrays of different types (columns of a table with mixed column types): the first input is
                 # narrower than the others - int64 when its values are integral, else float32 (rounded for both replicas)
                 c0 = arr[:, 0]
-                if not (np.isfinite(c0).all() and (c0 == np.floor(c0)).all() and (np.abs(c0) < 2**31).all()):
+                if not (np.isfinite(c0).all() and (c0 == np.floor(c0)).all() and not (np.signbit(c0) & (c0 == 0)).any() and (np.abs(c0) < 2**31).all()):
                     arr[:, 0] = c0.astype(np.float32).astype(np.float64)
             if setter == "vector" and not (n_in == 1 or k == 1):
                 setter = "matrix"
@@ -320,7 +320,7 @@ class C02(Sim):
                     st.hit("probes.input_arrays_refilled_in_place")
                 elif setter == "vars":
                     held = [arr[:, c].copy() for c in range(n_in)]
-                    if all(np.isfinite(h).all() and (h == np.floor(h)).all() and (np.abs(h) < 2**31).all() for h in held):
+                    if all(np.isfinite(h).all() and (h == np.floor(h)).all() and not (np.signbit(h) & (h == 0)).any() and (np.abs(h) < 2**31).all() for h in held):
                         # an all-integral batch handed over as integer arrays (users write np.array([0, 1, 2]))
                         held = [h.astype(np.int64) for h in held]
                         st.hit("probes.integer_typed_batch")
@@ -336,7 +336,7 @@ class C02(Sim):
                         st.hit("probes.float32_batch")
                     elif op.get("layout") == "mixed":
                         c0 = held[0]
-                        integral = np.isfinite(c0).all() and (c0 == np.floor(c0)).all() and (np.abs(c0) < 2**31).all()
+                        integral = np.isfinite(c0).all() and (c0 == np.floor(c0)).all() and not (np.signbit(c0) & (c0 == 0)).any() and (np.abs(c0) < 2**31).all()
                         held[0] = c0.astype(np.int64 if integral else np.float32)
                         st.hit("probes.mixed_type_batch")
                     elif op.get("layout") == "readonly":
